@@ -130,9 +130,13 @@ CHECKS["C18"] = dict(
     text="Lean theorems over the translator-generated min_block_size formulas and the list insert models: for every node size and count "
          "(explicit no-overflow hypotheses) a block of min_block_size bytes yields exactly n nodes (intrusive lists) / at least n and fewer "
          "than n+255 nodes (small list, using the repaired padded stride; the old formula is refuted by a checked counterexample = D13); pool "
-         "and stack min_block_size add exactly the arena header. Tied by the translator validation (C19 harness), a grid run on the real "
-         "pools and per-operation counter correspondence.",
-    note="'maxima are true upper bounds' is covered through C03 (oversize requests rejected) and the correspondence of the oversize stream.",
+         "and stack min_block_size add exactly the arena header. Counters of the bump allocators (Props/C18Counters): capacity_left of "
+         "iteration_allocator (also its traits' max_node_size / max_array_size) and of memory_stack drops by exactly new top - old top = "
+         "fence + padding + size + fence on a served request, the figures of the other regions do not move, and a request needing more "
+         "than what is reported as left is refused with the state unchanged (true upper bound). Tied by the translator validation (C19 "
+         "harness), a grid run on the real pools, per-operation counter correspondence, and requests one byte above the reported maxima "
+         "as operations of the pool / collection / stack / iteration histories.",
+    note="pools and collections: 'maxima are true upper bounds' through C03 (oversize requests rejected), the above-maximum requests of the histories and D33 (recorded finding).",
     technique="Lean 4 proof over generated formulas + grid enumeration on the real code")
 CHECKS["C16"] = dict(
     text="Lean theorems over the L1 models (proxies and chunk ring as addresses): ordered list - releasing any node that is on the list "
